@@ -1,11 +1,12 @@
 import SqlizeModel.Driver.Core
 import SqlizeModel.Driver.Snake
 import SqlizeModel.Driver.Pair
+import SqlizeModel.Driver.Script
 
 open Sqlize Sqlize.Driver
 
 def handlers : List (String × Handler) :=
-  [("snake", snakeHandler), ("pair", pairHandler)]
+  [("snake", snakeHandler), ("pair", pairHandler), ("script", scriptHandler)]
 
 def handleLine (line : String) : String :=
   match SExp.parse line with
